@@ -718,11 +718,19 @@ impl<W: Write + io::Seek> ZipWriter<W> {
             uncompressed_size: file.size(),
         };
 
+        let compressed_size = raw_values.compressed_size;
         self.start_entry(name, options, Some(raw_values))?;
         self.writing_to_file = true;
         self.writing_raw = true;
 
-        io::copy(file.get_raw_reader(), self)?;
+        let copied = io::copy(file.get_raw_reader(), self)?;
+        if copied != compressed_size {
+            // the header already declares `compressed_size` bytes of data
+            return Err(ZipError::Io(io::Error::new(
+                io::ErrorKind::UnexpectedEof,
+                "Source entry ended before its declared compressed size",
+            )));
+        }
 
         Ok(())
     }
